@@ -417,7 +417,7 @@ func run(c *core.Ctx) error {
 	c.SetExhaustive(false)
 	c.SetRule("distinct non-trivial = distinct (query kind, box/centre) states of GeoGridMC with a non-empty expected hit set, each replayed on three engines; plus distinct Morton-coded points")
 	c.Assume("points lie inside the cells of the 2^NB x 2^NB degree grid, at least 0.15 of a cell (> 1.6 degrees) away from every cell boundary, and box edges are cell boundaries, so float rounding at edges cannot change membership")
-	c.Assume("distance queries only with radius <= 1 km (selects exactly the co-located points; the nearest other point is > 20 km away) or >= 20100 km (selects all); nothing else about circles, general polygons or true-distance order is decided")
+	c.Assume("distance queries on the grid only with radius <= 1 km (selects exactly the co-located points; the nearest other point is > 20 km away) or >= 20100 km (selects all); circles of 5..500 km are decided on the equator (across the date line) and on the meridians 0/180 (over the north pole) only, with a 1% margin (spec/GeoCircle.tla); general polygons and true-distance order are not decided")
 
 	nb := c.Pick(3, 4)
 	cfg := fmt.Sprintf("GeoGridMC_n%d.cfg", nb)
@@ -440,6 +440,11 @@ func run(c *core.Ctx) error {
 		}
 	}
 	if err := s2Active(c, idx["scorch-s2"], idx["scorch"]); err != nil {
+		return err
+	}
+
+	// circles across the date line and over the pole (spec/GeoCircle.tla)
+	if err := circles(c); err != nil {
 		return err
 	}
 
